@@ -41,7 +41,8 @@ fn main() {
                     Some(st) => {
                         let pred = st.get("out").cloned().unwrap_or(Value::Null);
                         let real = run.events.last().map(|e| e["out"].clone()).unwrap_or(Value::Null);
-                        (pred.is_null() && real.is_null()) || same(&pred, &real, strip_hb)
+                        let inject = st.get("a").and_then(|x| x.as_str()) == Some("Inject");
+                        (pred.is_null() && (real.is_null() || inject)) || same(&pred, &real, strip_hb)
                     }
                     None => true,
                 };
@@ -58,6 +59,7 @@ fn main() {
                 "diverged": bad, "panics": panics})).unwrap();
         }
         "drive" => drive(&cfgv, wc, &mut out),
+        "detector" => detector(&cfgv, wc, &mut out),
         "trace" => {
             // executes given behaviours and writes the recorded real trace (Reset-separated)
             let stdin = std::io::stdin();
@@ -275,6 +277,67 @@ fn drive(cfgv: &Value, wc: WorldCfg, out: &mut impl Write) {
             if a != "Nop" && a != "Lose" && ev.get("skipped").is_none() {
                 writeln!(out, "{}", ev).unwrap();
             }
+        }
+    }
+}
+
+/// Heartbeat-arrival histories for one observed member "x" on observer "n1": phases of steady
+/// arrivals, bursts, long silences, and stale / equal / lower / duplicated heartbeats relayed by
+/// third parties, with evaluations at random times (C10, C11).
+fn detector(cfgv: &Value, wc: WorldCfg, out: &mut impl Write) {
+    let seed = num(cfgv, "seed", 1);
+    let ntraces = num(cfgv, "traces", 10);
+    let arrivals = num(cfgv, "arrivals", 100) as usize;
+    let max_interval = wc.fd.max_interval.max(1);
+    let mut rng = StdRng::seed_from_u64(seed);
+    for t in 0..ntraces {
+        let mut run = Run::new(wc.clone());
+        writeln!(out, "{}", json!({"a": "Reset", "trace": t})).unwrap();
+        let mut steps: Vec<Value> = Vec::new();
+        let mut hb: u64 = rng.random_range(1..5);
+        let mut n_arr = 0usize;
+        let emit = |run: &mut Run, steps: &mut Vec<Value>, st: Value, out: &mut dyn Write| {
+            steps.push(st);
+            let i = steps.len() - 1;
+            run.step(steps, i);
+            let mut ev = strip_nulls(&run.events[i]);
+            ev["i"] = json!(i);
+            ev.as_object_mut().unwrap().remove("out");
+            ev.as_object_mut().unwrap().remove("outlen");
+            writeln!(out, "{}", ev).unwrap();
+        };
+        while n_arr < arrivals {
+            // one phase
+            let phase = rng.random_range(0..6);
+            let plen = rng.random_range(1..12usize);
+            let lo = rng.random_range(0..=max_interval);
+            let hi = rng.random_range(lo..=max_interval + 1);
+            for _ in 0..plen {
+                if n_arr >= arrivals { break; }
+                let gap = match phase {
+                    0 | 1 => rng.random_range(lo..=hi),                // steady within [lo, hi]
+                    2 => 0,                                             // burst
+                    3 => rng.random_range(max_interval..max_interval * 4 + 2), // silence
+                    _ => rng.random_range(0..=max_interval + 2),
+                };
+                if gap > 0 { emit(&mut run, &mut steps, json!({"a": "Advance", "d": gap}), out); }
+                if rng.random_range(0..3) == 0 { emit(&mut run, &mut steps, json!({"a": "Liveness", "n": "n1"}), out); }
+                let h = match rng.random_range(0..10) {
+                    0 => hb,                                   // equal (duplicate / relayed)
+                    1 => hb.saturating_sub(rng.random_range(1..4)).max(1), // lower (stale relay)
+                    2 => { hb += rng.random_range(2..6); hb }  // jump
+                    _ => { hb += 1; hb }
+                };
+                let msg = json!({"t": "Syn", "src": "r", "dst": "n1", "cluster": "c", "digest": {"x": {"hb": h, "gc": 0, "max": 0}}});
+                emit(&mut run, &mut steps, json!({"a": "Inject", "n": "n1", "msg": msg}), out);
+                n_arr += 1;
+                if rng.random_range(0..2) == 0 { emit(&mut run, &mut steps, json!({"a": "Liveness", "n": "n1"}), out); }
+            }
+        }
+        // final silence with evaluations around the completeness deadline
+        for _ in 0..4 {
+            emit(&mut run, &mut steps, json!({"a": "Advance", "d": rng.random_range(1..=max_interval * 2 + 1)}), out);
+            emit(&mut run, &mut steps, json!({"a": "Liveness", "n": "n1"}), out);
         }
     }
 }
